@@ -144,25 +144,32 @@ where
             }
 
             match handle.as_mut().poll_next(cx) {
-                Poll::Ready(Some(sock)) => match sock {
-                    Socket::Client((si, st)) => {
-                        stream.as_mut().insert(*next_id, st);
-                        sink.as_mut().insert(*next_id, si);
+                Poll::Ready(Some(sock)) => {
+                    match sock {
+                        Socket::Client((si, st)) => {
+                            stream.as_mut().insert(*next_id, st);
+                            sink.as_mut().insert(*next_id, si);
 
-                        *next_id += 1;
-                    }
-                    Socket::Server((si, st)) => {
-                        if server.is_some() {
-                            let error_payload = ErrorPayload {
-                                code: REPLIER_ALREADY_BOUND,
-                                message: "A replier already exists for this topic".into(),
-                            };
-                            *buffered_err = Some((Some(error_payload), si));
-                        } else {
-                            let _ = server.insert((si, st));
+                            *next_id += 1;
+                        }
+                        Socket::Server((si, st)) => {
+                            if server.is_some() {
+                                let error_payload = ErrorPayload {
+                                    code: REPLIER_ALREADY_BOUND,
+                                    message: "A replier already exists for this topic".into(),
+                                };
+                                *buffered_err = Some((Some(error_payload), si));
+                            } else {
+                                let _ = server.insert((si, st));
+                            }
                         }
                     }
-                },
+
+                    // Yielding a socket consumed the waker held by the channel. Poll it again
+                    // until it is pending (waker registered) or closed, otherwise a later
+                    // registration or shutdown would not wake this future.
+                    continue;
+                }
                 // If handle is terminated, the stream is dead
                 Poll::Ready(None) => {
                     ready!(sink.as_mut().poll_flush(cx)).unwrap();
@@ -182,7 +189,9 @@ where
                         && buffered_req.is_none()
                         && buffered_rep.is_none() =>
                 {
-                    return Poll::Pending
+                    // Don't park on a flush that an earlier poll left unfinished
+                    ready!(sink.as_mut().poll_flush(cx)).unwrap();
+                    return Poll::Pending;
                 }
                 // Otherwise, move on with running the stream
                 Poll::Pending => (),
